@@ -431,7 +431,11 @@ impl Tr {
                     None => out += &format!("| {ps} => {body}\n"),
                     Some((pre, cond)) => {
                         let r = rest_name.as_ref().unwrap();
-                        out += &format!("| {ps} => {pre}if {cond} then {body} else {r} tt\n")
+                        if pre == "\u{4}" {
+                            out += &format!("| {ps} => {}\n", cond.replace('\u{3}', &body).replace('\u{2}', r))
+                        } else {
+                            out += &format!("| {ps} => {pre}if {cond} then {body} else {r} tt\n")
+                        }
                     }
                 }
             }
